@@ -51,10 +51,10 @@ pub fn be_packet(datagram: &mut BytesMut, dcid_len: usize) -> Result<Packet, Err
         nom::Err::Error(e) => e,
         _ => unreachable!("parsing packet type never generates failure"),
     })?;
-    let (remain, header) = be_header(pkty, dcid_len, remain).map_err(|e| match e {
-        ne @ nom::Err::Incomplete(_) => Error::IncompleteHeader(pkty, ne.to_string()),
-        _ => unreachable!("parsing packet header never generates error or failure"),
-    })?;
+    // Besides running out of input, a header can be malformed (e.g. a connection id length above
+    // 20 bytes): either way the datagram is reported as undecodable and dropped by the caller.
+    let (remain, header) = be_header(pkty, dcid_len, remain)
+        .map_err(|e| Error::IncompleteHeader(pkty, e.to_string()))?;
     match header {
         Header::VN(header) => {
             datagram.clear();
